@@ -91,3 +91,80 @@ def _(c):
     lp2.invariant('all(isinstance(elems[k], WlArg.Int) and cast(WlArg.Int, elems[k]).value == gv_int(gv_index(gv_as_ints(gv_member(value, "data")), k)) for k in range(0, _it1))', 'elements')
     c.unfold(3)
     c.native_gen(_gen_extract)
+
+
+# ---------------------------------------------------------------------------------------------------------------------
+# received_message / sent_message read the closure, the target and the connection out of libwayland's stack frames (gdb API):
+# bounded contracts over stand-in frames (the gdb API is outside the verifier)
+_FRAMES = {}
+
+
+class _FakeFrame:
+    def __init__(self, name, variables, older=None):
+        self._name, self._vars, self._older = name, variables, older
+    def name(self): return self._name
+    def read_var(self, n): return self._vars[n]
+    def older(self): return self._older
+
+
+def _install_frames(rnd, sending):
+    from spec import gen
+    m = gen.install_fake_gdb()
+    closure = gen.fake_closure(rnd)
+    conn_addr = rnd.choice([0x10, 0x5555dead0, 4096])
+    sender = int(closure.field('wl_closure.sender_id'))
+    iface = rnd.choice(['wl_surface', 'xdg_toplevel'])
+    if sending:
+        parent = _FakeFrame('wl_closure_send', {'closure': closure, 'connection': gen.FakeValue(conn_addr)})
+        top = _FakeFrame('serialize_closure', {}, parent)
+        exp = {'sent': True, 'conn': 'gdb_conn:' + hex(conn_addr), 'id': sender, 'type': None, 'client': None}
+    else:
+        client = rnd.random() < 0.5
+        target = gen.FakeValue({'interface': {'wl_interface.name': iface}, 'wl_resource.client': {'wl_client.connection': conn_addr}})
+        if client:
+            parent = _FakeFrame('dispatch_event', {'display': gen.FakeValue({'wl_display.connection': conn_addr})})
+        else:
+            parent = _FakeFrame('wl_client_connection_data', {})
+        top = _FakeFrame('wl_closure_invoke', {'closure': closure, 'target': target}, parent)
+        exp = {'sent': False, 'conn': 'gdb_conn:' + hex(conn_addr), 'id': sender, 'type': iface, 'client': client}
+    m.gdb.selected_frame = lambda: top
+    exp['closure'] = closure
+    _FRAMES['expect'] = exp
+    return ()
+
+
+from pyvc.contracts import native_helper
+
+
+@native_helper
+def frame_reading_ok(result):
+    exp = _FRAMES['expect']
+    conn_id, msg = result
+    from spec import gen
+    m = gen.install_fake_gdb()
+    from core import wl
+    ref = m.extract_message(exp['closure'], wl.UnresolvedObject(exp['id'], exp['type']), exp['sent'], bool(exp['client']))
+    problems = []
+    if conn_id != exp['conn']:
+        problems.append('connection %r instead of %r' % (conn_id, exp['conn']))
+    if msg.sent != exp['sent']:
+        problems.append('direction')
+    if msg.obj.id != exp['id'] or msg.obj.type != exp['type']:
+        problems.append('target %r@%r instead of %r@%r' % (msg.obj.type, msg.obj.id, exp['type'], exp['id']))
+    if msg.name != ref.name or [str(a) for a in msg.args] != [str(a) for a in ref.args]:
+        problems.append('arguments %r instead of %r' % ([str(a) for a in msg.args], [str(a) for a in ref.args]))
+    if problems:
+        raise AssertionError('; '.join(problems))
+    return True
+
+
+for _fn, _sending in (('received_message', False), ('sent_message', True)):
+    @contract(EX + _fn)
+    def _(c, _sending=_sending):
+        c.prop('C09')
+        c.bounded('reads the closure, the target object and the connection out of libwayland\'s stack frames through the gdb API (outside the verifier): on stand-in frames '
+                  '(client-side dispatch_event, server-side wl_client_connection_data, wl_closure_send) the connection id is that of the connection in the frame, the direction is '
+                  + ('sent' if _sending else 'received') + ', the target is the closure\'s sender with the interface the frame gives, and the arguments are those extract_message reports')
+        c.returns('Tuple(str, Obj("core.wl.message.Message"))')
+        c.ensures('frame_reading_ok(result)', 'reports_what_the_frames_hold', native_only=True)
+        c.native_gen((lambda s_: (lambda rnd: _install_frames(rnd, s_)))(_sending), quick=300, thorough=3000)
